@@ -500,6 +500,19 @@ func (g *gen) aliasAndFixed() []*StructDef {
 		s := mk(fmt.Sprintf("PanicInit%d", i), i == 1, f(1, Default, I32), f(2, Optional, String), f(3, Required, I64))
 		s.PanicInit = true
 	}
+	// initialisers that depend on something loaded after the start-up warm-up (they panic only while the harness
+	// says so, which it does around legacy warm-up calls and never around codec calls)
+	for i := 0; i < 2; i++ {
+		s := mk(fmt.Sprintf("LateInit%d", i), i == 1, f(1, Default, I32), f(2, Optional, I64), f(3, Required, String))
+		s.InitDefault, s.LateInit = true, true
+		s.Fields[1].OptPtr = false
+		s.Fields[1].Def = NewW(WI64)
+		s.Fields[1].Def.I = 7
+	}
+	mk("HoldLateInit", false,
+		&Field{ID: 1, Name: "F1", T: &T{K: Struct, S: "LateInit0", Ptr: true}},
+		&Field{ID: 2, Name: "F2", T: &T{K: List, Elem: &T{K: Struct, S: "LateInit1"}}},
+		&Field{ID: 3, Name: "F3", T: &T{K: I64}})
 	mk("HoldPanicInit", false,
 		&Field{ID: 1, Name: "F1", T: &T{K: Struct, S: "FixedN", Ptr: true}},
 		&Field{ID: 2, Name: "F2", T: &T{K: List, Elem: &T{K: Struct, S: "PanicInit2", Ptr: true}}},
